@@ -348,6 +348,7 @@ func short(w *world, a common.Address) string {
 type mctx struct {
 	idx   func(common.Address) int
 	pre   *account.AccountDB
+	pre0  *account.AccountDB // the state at the start of the block
 	info  *nx.ContractInfo
 	rc    *types.Receipt
 	stale *uint64
@@ -684,9 +685,13 @@ func (w *world) genLock(r *hx.Rng, src common.Address) gen {
 	if r.Intn(14) == 0 {
 		pk = nil
 	}
-	mi := types.Miner{Id: id, PublicKey: pk, VrfPublicKey: []byte{3}, Type: typ, Stake: stake, Account: acct}
+	return w.mkApply(src, types.Miner{Id: id, PublicKey: pk, VrfPublicKey: []byte{3}, Type: typ, Stake: stake, Account: acct})
+}
+
+func (w *world) mkApply(src common.Address, mi types.Miner) gen {
+	id, pk, typ, stake, acct := mi.Id, mi.PublicKey, mi.Type, mi.Stake, mi.Account
 	md, _ := json.Marshal(mi)
-	tx := nx.NewTx(types.TransactionTypeMinerApply, srcHex, "", string(md), "")
+	tx := nx.NewTx(types.TransactionTypeMinerApply, nx.AddrHex(src), "", string(md), "")
 	min := common.ValidatorStake
 	if typ == common.MinerTypeProposer {
 		min = common.ProposerStake
@@ -696,10 +701,31 @@ func (w *world) genLock(r *hx.Rng, src common.Address) gen {
 		model: func(m *mctx) (string, bool) {
 			// AddMiner's registry-side checks, read from the registry just before the tx with the node's own lookups
 			// (id through GetMiner, account through the iterator-based GetMinerIdByAccount: property C20)
-			regOK := typ <= 1 && stake >= min && len(pk) > 0 && service.MinerManagerImpl.GetMiner(id, m.pre) == nil &&
-				service.MinerManagerImpl.GetMinerIdByAccount(acct, m.pre) == nil
+			regOK := typ <= 1 && stake >= min && len(pk) > 0 && service.MinerManagerImpl.GetMiner(id, m.pre) == nil && !w.accountHeld(acct, m)
 			return fmt.Sprintf("TLock %d%%N %s %s", m.idx(src), utility.Float64ToBigInt(float64(stake)).String(), hx.CoqBool(regOK)), true
 		}}
+}
+
+// accountHeld answers AddMiner's "an account controls at most one miner" check the way the code does inside a block:
+// GetMinerIdByAccount walks the registry entries COMMITTED at the start of the block and reads their account / status
+// through GetData, which sees the writes of the block's earlier transactions (property C20: a miner applied earlier in
+// the same block is not seen). An aborted miner still holds its account (Current() returns it together with an error
+// that GetMinerIdByAccount ignores).
+func (w *world) accountHeld(acct []byte, m *mctx) bool {
+	seen := map[string]bool{}
+	for _, id := range w.minerId {
+		if seen[string(id)] {
+			continue
+		}
+		seen[string(id)] = true
+		if service.MinerManagerImpl.GetMiner(id, m.pre0) == nil {
+			continue
+		}
+		if mi := service.MinerManagerImpl.GetMiner(id, m.pre); mi != nil && string(mi.Account) == string(acct) {
+			return true
+		}
+	}
+	return false
 }
 
 func (w *world) genRefund(r *hx.Rng, src common.Address) gen {
@@ -975,6 +1001,20 @@ func (w *world) step(r *hx.Rng, res *hx.Result, cs *hx.Cases) {
 		if r.Intn(2) == 0 {
 			nTx = 1
 		}
+	}
+	if nTx > 0 && len(gens) == 0 && r.Intn(25) == 0 {
+		// two applications naming the same account in one block (the registry's account check walks committed entries
+		// only - property C20): both stakes must still be debited and locked exactly
+		nextAcct++
+		acct := nx.Addr(nextAcct)
+		w.base = append(w.base, acct)
+		for i := 0; i < 2; i++ {
+			id := []byte{0x70, byte(nextMiner >> 8), byte(nextMiner)}
+			nextMiner++
+			mi := types.Miner{Id: id, PublicKey: []byte{1, 2}, VrfPublicKey: []byte{3}, Type: common.MinerTypeValidator, Stake: 400 + uint64(i), Account: acct.Bytes()}
+			gens = append(gens, w.mkApply(w.S[r.Intn(2)], mi))
+		}
+		nTx = r.Intn(2)
 	}
 	for i := 0; i < nTx; i++ {
 		g := w.generate(r, &installed)
@@ -1357,7 +1397,7 @@ func (w *world) step(r *hx.Rng, res *hx.Result, cs *hx.Cases) {
 	}
 	var ops []string
 	for k, g := range gens {
-		m := &mctx{idx: idx, pre: pre[k], info: infos[k], rc: rs[k], h: hd}
+		m := &mctx{idx: idx, pre: pre[k], pre0: pre[0], info: infos[k], rc: rs[k], h: hd}
 		if pctx[k] != nil {
 			if gu, ok := pctx[k]["gasUsed"].(uint64); ok {
 				m.stale = &gu
